@@ -17,6 +17,10 @@ func main() {
 	switch os.Args[1] {
 	case "slb-run":
 		slbRun()
+	case "gslb-run":
+		gslbRun()
+	case "sticky-run":
+		stickyRun()
 	default:
 		fmt.Fprintln(os.Stderr, "unknown subcommand", os.Args[1])
 		vh.Flush()
